@@ -90,9 +90,47 @@ def run_variants(prop: str, jobs: int = None, verbose=True):
     return res
 
 
+def run_neutral(prop: str, seed: int = 0):
+    """Every behaviour-preserving transformation of pdv/neutral.py applied (in memory) to the modules the
+    property's check consults: the check must stay silent."""
+    from . import neutral
+    mod = importlib.import_module("pdv.props." + prop.lower())
+    base = Repo()
+    ctx0 = Ctx(prop, "thorough", base, seed)
+    mod.check(ctx0)
+    consulted = sorted(ctx0.consulted)
+    known = {k["key"] for k in load_known().get("known", []) if k["property"] == prop}
+    out = []
+    for kind in neutral.KINDS:
+        overlay = {}
+        for mn in consulted:
+            mi = base.modules.get(mn)
+            if mi is None:
+                continue
+            try:
+                new = neutral.transform(mi.source, kind)
+                compile(new, mi.path, "exec")
+            except Exception as e:  # a transformation that cannot be applied to a file is skipped for that file
+                continue
+            overlay[mi.relpath] = new
+        try:
+            repo = Repo(overlay=overlay)
+            ctx = Ctx(prop, "thorough", repo, seed)
+            mod.check(ctx)
+            new_v = [x for x in ctx.violations if x.key not in known]
+            if new_v:
+                out.append((f"neutral:{kind}", "neutral", "FALSE-ALARM", "; ".join(f"{x.rule}@{x.where}" for x in new_v)[:300]))
+            else:
+                out.append((f"neutral:{kind}", "neutral", "silent", f"{len(overlay)} modules"))
+        except (AnchorMissing, AnalysisError) as e:
+            out.append((f"neutral:{kind}", "neutral", "analysis-error", str(e)[:200]))
+    return out
+
+
 def selftest(prop: str, seed: int = 0) -> int:
     t0 = time.time()
     res = run_variants(prop)
+    res = list(res) + run_neutral(prop, seed)
     if not res:
         print(f"[{prop}] self-test: no variant corpus for this property")
         return 0
